@@ -41,6 +41,9 @@ type c08In struct {
 	Template bool `json:"children_copied_from_one_negotiated_template,omitempty"`
 	// EmptyKeyFields: the Child SA objects start with empty, non-nil key fields instead of nil ones
 	EmptyKeyFields bool `json:"key_fields_empty_not_nil,omitempty"`
+	// OnlyPrfObject: the IKE SA is assembled with the keyed Prf_d object only, the SK_d octets are not kept on it (the
+	// library's own tests build their SAs like that)
+	OnlyPrfObject bool `json:"ike_sa_holds_prf_object_only,omitempty"`
 }
 
 func c08NewSA(in c08In) (*security.IKESAKey, []byte, error) {
@@ -57,6 +60,9 @@ func c08NewSA(in c08In) (*security.IKESAKey, []byte, error) {
 	}
 	sa.SK_d = append([]byte(nil), in.SKd...)
 	sa.Prf_d = sa.PrfInfo.Init(sa.SK_d)
+	if in.OnlyPrfObject {
+		sa.SK_d = nil
+	}
 	return sa, in.SKd, nil
 }
 
@@ -67,6 +73,7 @@ var c08History = probe.Define("C08", "history", func(t *rapid.T) c08In {
 	} else {
 		in.SKd = gen.Fill(t, "skd", ref.Prfs[in.Prf].KeyLen)
 	}
+	in.OnlyPrfObject = !in.ViaIKE && rapid.IntRange(0, 3).Draw(t, "onlyprfobject") == 3
 	in.ChildViaProposal = rapid.IntRange(0, 2).Draw(t, "childviaproposal") == 2
 	in.NegotiateFirst = rapid.IntRange(0, 3).Draw(t, "negotiatefirst") == 3
 	in.Template = in.NegotiateFirst && rapid.Bool().Draw(t, "template")
@@ -197,6 +204,9 @@ var c08History = probe.Define("C08", "history", func(t *rapid.T) c08In {
 	}
 	if in.EmptyKeyFields {
 		labels = append(labels, "key-fields-empty-not-nil")
+	}
+	if in.OnlyPrfObject {
+		labels = append(labels, "ike-sa-holds-prf-object-only")
 	}
 	labels = append(labels, fmt.Sprintf("steps>=2:%v", len(in.Steps) >= 2))
 	return probe.Outcome{NonTrivial: len(in.Steps) >= 2, Labels: labels}
